@@ -17,6 +17,7 @@
 use anchor_lang::solana_program::{instruction::Instruction, pubkey::Pubkey, rent::Rent};
 use gmsol_store::states::{common::action::{ActionHeader, ActionState}, Deposit, Order, Shift, Withdrawal};
 use h_runtime::runtime::{spl, ExecResult, World};
+use gmsol_store::states::common::action::Action;
 use h_runtime::util::{Args, Rng, Sink};
 use h_runtime::world2::*;
 use serde_json::{json, Map, Value};
@@ -405,6 +406,141 @@ fn direct_events(sink: &mut Sink) {
     }
 }
 
+/// Keeper-created actions: the orders `liquidate` / `auto_deleverage` create (creator = keeper, owner =
+/// the position owner).  The cut is driven by R2::cut_scenario; this recorder judges the CLOSE of the
+/// completed order (by the keeper, and on a copy of the world by the owner) in the ActionLifecycle
+/// schema: a1 = the cut order, out / out2 = its collateral-token / other-token escrows.
+struct CutRec<'a> {
+    r2: &'a R2,
+    sink: &'a mut Sink,
+    stats: &'a mut Stats,
+    owner: Pubkey,
+    kind: &'static str,
+}
+
+impl CutRec<'_> {
+    fn project(&self, w: &World, order: &Pubkey, esc: (Pubkey, Pubkey), own: (Pubkey, Pubkey), base: (u64, u64, u64, u64), existed: bool) -> Value {
+        let r2 = self.r2;
+        let st = match w.account(order) {
+            Some(a) if a.owner == gmsol_store::ID => match w.account_data::<ActionHeader>(order).map(|h| h.action_state()) {
+                Some(Ok(ActionState::Pending)) => "pending",
+                Some(Ok(ActionState::Completed)) => "completed",
+                Some(Ok(ActionState::Cancelled)) => "cancelled",
+                _ => "unknown",
+            },
+            _ if existed => "closed",
+            _ => "none",
+        };
+        let two = |a: Value| json!({"a1": a, "a2": 0});
+        let d = |x: u64, b: u64| json!(x as i64 - b as i64);
+        let lam = w.lamports(order) + w.lamports(&esc.0) + w.lamports(&esc.1);
+        json!({"st": {"a1": st, "a2": "none"}, "strict": {"a1": false, "a2": false}, "expired": {"a1": false, "a2": false},
+            "esc": two(json!(0)), "own": two(json!(0)),
+            "out": two(json!(r2.balance(w, &esc.0))), "out2": two(json!(r2.balance(w, &esc.1))),
+            "ownOut": two(d(r2.balance(w, &own.0), base.0)), "ownOut2": two(d(r2.balance(w, &own.1), base.1)),
+            "lam": two(json!(lam)), "ownLam": two(d(w.lamports(&self.owner), base.2)),
+            "keeperLam": w.lamports(&r2.keeper) as i64 - base.3 as i64})
+    }
+
+    #[allow(clippy::too_many_arguments)]
+    fn close_event(&mut self, w: &mut World, by: &str, order: &Pubkey, esc: (Pubkey, Pubkey), own: (Pubkey, Pubkey), f: &mut dyn FnMut(&mut World) -> ExecResult) -> ExecResult {
+        let base = (self.r2.balance(w, &own.0), self.r2.balance(w, &own.1), w.lamports(&self.owner), w.lamports(&self.r2.keeper));
+        let pre = self.project(w, order, esc, own, base, true);
+        let mv0 = (self.r2.mkts.iter().map(|m| market_digest(&self.r2.market_state(w, m))).collect::<Vec<_>>(), w.digest());
+        let r = f(w);
+        let post = self.project(w, order, esc, own, base, true);
+        let mv1 = self.r2.mkts.iter().map(|m| market_digest(&self.r2.market_state(w, m))).collect::<Vec<_>>();
+        self.stats.instructions += 1;
+        *self.stats.classes.entry(format!("{}/close/{by}/normal/{}", self.kind, r.label())).or_insert(0) += 1;
+        self.sink.emit(json!({"op": "close", "a": "a1", "by": by, "strict": false, "mode": "normal", "kind": self.kind,
+            "ok": r.ok, "err": r.label(), "panic": r.panic, "reset": true, "amt": 0, "cost": 0, "fee": EXEC_FEE,
+            "pre": pre, "post": post, "mktSame": mv0.0 == mv1, "vaultSame": true, "worldSame": mv0.1 == w.digest()}));
+        r
+    }
+}
+
+impl Recorder for CutRec<'_> {
+    fn exec(&mut self, w: &mut World, info: &Info, f: &mut dyn FnMut(&mut World) -> ExecResult) -> ExecResult {
+        if info.op != "close_cut_order" {
+            return f(w);
+        }
+        let r2 = self.r2;
+        let order = info.action.expect("cut order");
+        let m = &r2.mkts[info.current.expect("market")];
+        let (ct, other) = if info.side == "long" { (m.long, m.short) } else { (m.short, m.long) };
+        let (ct, other) = (r2.toks[ct].mint, r2.toks[other].mint);
+        let esc = (spl::ata(&order, &ct), spl::ata(&order, &other));
+        let own = (spl::ata(&self.owner, &ct), spl::ata(&self.owner, &other));
+        // the owner closes it himself (on a copy of the world)
+        {
+            let mut w2 = w.clone();
+            let owner = self.owner;
+            let rent_receiver = r2.order(&w2, &order).map(|o| *o.header().rent_receiver()).unwrap_or(owner);
+            let (lt, stk) = (r2.toks[m.long].mint, r2.toks[m.short].mint);
+            let mut ix = h_runtime::runtime::store::ix(
+                gmsol_store::accounts::CloseOrderV2 {
+                    executor: owner,
+                    store: r2.store,
+                    store_wallet: r2.store_wallet,
+                    owner,
+                    receiver: owner,
+                    rent_receiver,
+                    user: h_runtime::runtime::store::user_pda(&r2.store, &owner),
+                    referrer_user: None,
+                    order,
+                    initial_collateral_token: None,
+                    final_output_token: Some(ct),
+                    long_token: Some(lt),
+                    short_token: Some(stk),
+                    initial_collateral_token_escrow: None,
+                    final_output_token_escrow: Some(spl::ata(&order, &ct)),
+                    long_token_escrow: Some(spl::ata(&order, &lt)),
+                    short_token_escrow: Some(spl::ata(&order, &stk)),
+                    initial_collateral_token_ata: None,
+                    final_output_token_ata: Some(spl::ata(&owner, &ct)),
+                    long_token_ata: Some(spl::ata(&owner, &lt)),
+                    short_token_ata: Some(spl::ata(&owner, &stk)),
+                    system_program: anchor_lang::solana_program::system_program::ID,
+                    token_program: spl_token::ID,
+                    associated_token_program: spl_associated_token_account::ID,
+                    callback_authority: None,
+                    callback_program: None,
+                    callback_shared_data_account: None,
+                    callback_partitioned_data_account: None,
+                    event_authority: h_runtime::runtime::store::event_authority(&gmsol_store::ID),
+                    program: gmsol_store::ID,
+                },
+                gmsol_store::instruction::CloseOrderV2 { reason: "verif".into() },
+            );
+            payer_writable(&mut ix, &owner);
+            self.close_event(&mut w2, "owner", &order, esc, own, &mut |w: &mut World| w.execute(&ix, &[owner]));
+        }
+        // the keeper closes it
+        self.close_event(w, "keeper", &order, esc, own, f)
+    }
+}
+
+/// positions opened by real MarketIncrease orders, cut by liquidate / auto_deleverage (whole position),
+/// then the keeper-created order is closed
+fn cuts(sink: &mut Sink, stats: &mut Stats) {
+    let mut base = World::new();
+    let r2 = R2::build_funded(&mut base, 2);
+    let owner = r2.users[0];
+    for ml in ["M1", "M2"] {
+        let mi = r2.mkts.iter().position(|m| m.label == ml).unwrap();
+        for adl in [false, true] {
+            for (is_long, col_long) in [(true, true), (true, false), (false, true), (false, false)] {
+                for swap_fails in [false, true] {
+                    let mut w = base.clone();
+                    let mut ctr = 7000u64;
+                    let mut rec = CutRec { r2: &r2, sink: &mut *sink, stats: &mut *stats, owner, kind: if adl { "cut_adl" } else { "cut_liquidate" } };
+                    r2.cut_scenario(&mut w, &mut rec, &owner, mi, is_long, col_long, adl, swap_fails, &mut ctr);
+                }
+            }
+        }
+    }
+}
+
 fn kinds_arg(args: &Args) -> Vec<&'static str> {
     let want = args.str("kinds", "deposit,withdrawal,order,shift");
     KINDS.iter().copied().filter(|k| want.split(',').any(|w| w == *k)).collect()
@@ -472,6 +608,9 @@ fn replay(args: &Args) {
         }
     }
     direct_events(&mut sink);
+    if args.str("cuts", "yes") == "yes" {
+        cuts(&mut sink, &mut stats);
+    }
     let n = sink.finish();
     println!(
         "{}",
